@@ -606,8 +606,9 @@ func (g *genT) catalogueH(b baseT, full bool) {
 	X, Y, r, s := b.k.X, b.k.Y, b.r, b.s
 	d := b.descr
 	dg, err := pub(X, Y).Sm3Digest(b.msg, b.uid)
-	if err != nil {
-		panic("gen: Sm3Digest failed on a base tuple")
+	if err != nil { // judged by the D case; nothing to build the H cases from
+		g.D(X, Y, b.uid, b.msg, d+" Sm3Digest of the base tuple failed")
+		return
 	}
 	g.H(X, Y, dg, r, s, "acc", d+" hash=Sm3Digest")
 	if len(dg) > 0 {
@@ -646,10 +647,9 @@ func (g *genT) catalogueP(b baseT, all bool) {
 	R, S := tlv(2, rb), tlv(2, sb)
 	body := cat(R, S)
 	strict := tlv(0x30, body)
-	// the hand-built strict encoding must be what (*PrivateKey).Sign emits for the same nonce
-	if sig, err := key(b.k.d).Sign(&reader{rem: b.rho}, msg, nil); err != nil || !bytes.Equal(sig, strict) {
-		panic("gen: hand-built DER differs from (*PrivateKey).Sign: " + hx.Hex(sig) + " vs " + hx.Hex(strict))
-	}
+	// the hand-built strict encoding should be what (*PrivateKey).Sign emits for the same nonce: emitted as a case (the
+	// predicate judges it); the generator itself never aborts on what /repo returns
+	g.G(b.k, msg, b.rho, d+" Sign of the base tuple (must give the hand-built strict DER)")
 	P := func(sig []byte, expect, what string) { g.P(X, Y, msg, sig, expect, d+" "+what) }
 	seq := func(parts ...[]byte) []byte { return tlv(0x30, cat(parts...)) }
 	L := func(n int) []byte { return []byte{byte(n)} }
